@@ -102,3 +102,74 @@ def to_json(t):
     if isinstance(t, tuple):
         return [to_json(x) for x in t]
     return t
+
+
+# ----------------------------------------------------------------------------- class programs
+CNAMED = ['Digit', 'Letter', 'LowercaseLetter', 'UppercaseLetter', 'Whitespace', 'Punctuation', 'GreekLetter', 'CyrillicLetter']
+CTOKS = ['Backslash', 'Dollar', 'Newline', 'Space', 'Euro', 'Tab']
+
+
+class CGen:
+    def __init__(self, seed):
+        self.r = random.Random(seed)
+        self.base = self.r.choice([43, 90, 36, 97, 0x3AC, 0x10FFF0, 48, 33])
+
+    def cp(self):
+        r = self.r
+        x = r.random()
+        if x < 0.4:
+            return r.choice(UV.INCLASS + UV.META)
+        if x < 0.75:
+            return min(0x10FFFF, self.base + r.randrange(10))      # a neighbourhood: adjacent / overlapping ranges
+        if x < 0.9:
+            return r.choice([97, 98, 99, 122, 48, 57, 65, 90, 95, 10, 32])
+        return r.randrange(0x110000)
+
+    def arg(self):
+        r = self.r
+        x = r.random()
+        if x < 0.85:
+            return ('c', self.cp())
+        if x < 0.95:
+            return ('tok', r.choice(CTOKS))
+        return ('bad', r.choice(['multi', 'multiesc', 'int', 'none']))
+
+    def leaf(self):
+        r = self.r
+        x = r.random()
+        neg = r.random() < 0.35
+        if x < 0.4:
+            return ('CFrom', neg, ('args',) + tuple(self.arg() for _ in range(r.choice([1, 1, 2, 2, 3, 4]))))
+        if x < 0.7:
+            a, b = self.arg(), self.arg()
+            return ('CBetween', neg, a, b)
+        if x < 0.8:
+            return ('CNamed', neg, r.choice(CNAMED))
+        if x < 0.85:
+            return ('CWord', neg, r.random() < 0.4)
+        if x < 0.88:
+            return ('CAny',)
+        if x < 0.94:
+            return ('CChar', self.cp())
+        if x < 0.98:
+            return ('CTok', r.choice(CTOKS))
+        return ('CBad', r.choice(['multi', 'int', 'pregex', 'none']))
+
+    def term(self, depth):
+        r = self.r
+        if depth == 0 or r.random() < 0.2:
+            return self.leaf()
+        x = r.random()
+        if x < 0.45:
+            return ('COr', self.term(depth - 1), self.term(depth - 1))
+        if x < 0.85:
+            return ('CSub', self.term(depth - 1), self.term(depth - 1))
+        return ('CInv', self.term(depth - 1))
+
+
+def generate_class_terms(seed, n, depth=3):
+    out = []
+    for i in range(n):
+        g = CGen(seed * 1000003 + i)
+        out.append(g.term(g.r.choice([1, 1, 2, 2, 3, depth])))
+    return out
